@@ -156,13 +156,15 @@ def main(argv=None):
     fams = [fams[i] for i in order]
 
     opts = {
-        "timeout_ms": args.timeout_ms or (10000 if tier == "quick" else 60000),
-        "small_ms": 1500 if tier == "quick" else 3000,
-        "hard_s": 240 if tier == "quick" else 1200,
+        "timeout_ms": args.timeout_ms or (10000 if tier == "quick" else 30000),
+        "small_ms": 1500,
+        "hard_s": 240 if tier == "quick" else 450,
         "seed": seed,
         "n_candidates": 16 if tier == "quick" else 40,
     }
     opts.update(getattr(mod, "OPTS", {}).get(tier, {}))
+    opts["outside_goals"] = pb.get("outside_goals", {})
+    opts["hunt_outside_goals"] = tier == "thorough"
     if args.hard_s:
         opts["hard_s"] = args.hard_s
     if args.timeout_ms:
@@ -179,6 +181,21 @@ def main(argv=None):
             print(f"  [{done[0]}/{len(fams)}] {r['status']:12s} {r['key']}  {r.get('wall_s', 0)}s  {r.get('reason', '')}", flush=True)
 
     results = driver.run_all(fams, opts, procs=args.procs, progress=progress)
+    # an undecided obligation gets one more attempt with four times the solver budget (timeouts depend on
+    # machine load; a verdict never does)
+    retry = [i for i, r in enumerate(results) if r["status"] == "inconclusive" and not getattr(next(f for f in fams if f.key == r["key"]), "hunt", False)]
+    if retry and not args.dump and not os.environ.get("VERIF_NO_RETRY"):
+        by_key = {f.key: f for f in fams}
+        opts2 = dict(opts)
+        opts2["timeout_ms"] = opts["timeout_ms"] * 4
+        opts2["hard_s"] = opts["hard_s"] * 3
+        again = driver.run_all([by_key[results[i]["key"]] for i in retry], opts2, procs=args.procs, progress=progress)
+        redo = {r["key"]: r for r in again}
+        for i in retry:
+            r2 = redo.get(results[i]["key"])
+            if r2 is not None:
+                r2["retried"] = True
+                results[i] = r2
     results.sort(key=lambda r: r["key"])
 
     # ---- verdicts -----------------------------------------------------------------------
@@ -217,6 +234,7 @@ def main(argv=None):
 
     obligations = sum(len(r.get("goals", [])) for r in results_claim)
     discharged = sum(1 for r in results_claim for g in r.get("goals", []) if g.get("verdict") in ("unsat", "concrete-true"))
+    obligations -= sum(1 for r in results_claim for g in r.get("goals", []) if g.get("verdict") == "outside-claim")
     solver_goals = sum(1 for r in results_claim for g in r.get("goals", []) if g.get("verdict") in ("unsat", "sat", "unknown"))
     queries = sum(r.get("stats", {}).get("queries", 0) for r in results)
     solver_s = sum(r.get("stats", {}).get("solver_s", 0.0) for r in results)
@@ -283,6 +301,8 @@ def main(argv=None):
                 "solver": {"queries": queries, "solver_s": round(solver_s, 2), "by_kind": by_kind, "z3": __import__("z3").get_version_string()},
                 "bounds": getattr(mod, "BOUNDS", {}),
                 "outside_claim": sorted(skipped_outside)[:200],
+                "outside_goals": {k: v for k, v in list(pb.get("outside_goals", {}).items())[:100]},
+                "n_outside_goals": sum(len(v) for v in pb.get("outside_goals", {}).values()),
                 "outside_claim_reasons": outside,
                 "thorough_only": len(skipped_slow),
                 "vacuity_twins_sat": sum(1 for r in results if r.get("vacuity_twin") == "sat"),
